@@ -99,6 +99,15 @@ Definition tyres_of_table (t : list (str * str)) : str -> option (pv -> tyname_r
 
 (* custom scalar serialisers of the generated schemas *)
 Definition ser_identity (v : pv) : option pv := Some v.
+(* a serialiser given by a table: designated values (compared exactly, with
+   their Python type) are mapped to a result -- possibly None -- or rejected
+   (None = raises ValueError); every other value passes unchanged *)
+Fixpoint ser_table (t : list (pv * option pv)) (v : pv) : option pv :=
+  match t with
+  | [] => Some v
+  | (k, r) :: t' => if pv_eqb k v then r else ser_table t' v
+  end.
+
 Definition ser_int_to_str (v : pv) : option pv :=
   match v with PInt z => Some (PStr (Z_text z)) | _ => None end.
 
